@@ -212,7 +212,7 @@ B_FIELDS = {
     "linegap": ([100, 37], None),
     "width": ([1000, 0, 2048, 1300], None),
     "color_format": (gen.ALL_FORMATS, None),
-    "output_file": (["Other.ttf", "My Font.ttf", "sub.name.ttf", "Flavour.otf", "Flavour.ttf"], None),
+    "output_file": (["Other.ttf", "My Font.ttf", "sub.name.ttf", "Flavour.otf", "Flavour.ttf", "sub/Nested.ttf"], None),
     "keep_glyph_names": ([True, False], ["glyf", "glyf_colr_0", "glyf_colr_1", "untouchedsvg", "cbdt", "sbix", "picosvg"]),
     "clipbox_quantization": ([1, 16, 50, 100], ["glyf_colr_1", "cff2_colr_1", "cff_colr_1"]),
     "bitmap_resolution": ([16, 24, 48, 20], ["cbdt", "sbix"]),
